@@ -73,7 +73,7 @@ def units(tier):
     return [(f"solve:{spec_name(s)}", "u_solve", {"spec": s}) for s in specs]
 
 
-def u_solve(rec, spec):
+def u_solve(rec, spec, jit_too=True):
     from ..templates import build
 
     try:
@@ -86,7 +86,10 @@ def u_solve(rec, spec):
     ref = Ref(tm.model, params, S, ambient=assume)
     Vref = ref.solve()
     # (iv) jit on
-    tm2, S2, params2, assume2, Vjit, solve_jit, _ = sym_solve(rec, spec, jit=True)
+    if jit_too:
+        tm2, S2, params2, assume2, Vjit, solve_jit, _ = sym_solve(rec, spec, jit=True)
+    else:
+        Vjit, solve_jit = None, None
     T = tm.model.n_periods
     cache = {}
 
@@ -165,6 +168,8 @@ def u_solve(rec, spec):
                 e_a, r_a = e, r
             rec.prove(f"V[{t}]{list(idx)}==bellman", sj.x_eq(e_a, r_a), assume, replay=mk_replay(t, idx, r))
             # (iv) jit
+            if Vjit is None:
+                continue
             j = Vjit[t][idx] if tuple(Vjit[t].shape) == shape else None
             if j is None:
                 rec.prove(f"V[{t}]{list(idx)} jit shape", False, assume, replay=mk_replay(t, idx, r, "jit"))
